@@ -250,15 +250,14 @@ def run(prog, chk):
     else:
         chk.bad("C14.T6", run_, "run-exit-condition", "%s:%s" % (run_.file, run_.line), "run() must return exactly when it consumed the interrupt flag (set to false under the mutex) or poll failed")
     # ------------------------------------------------------------------ T7
-    for nm in ("ClientImpl::write", "ClientImpl::read"):
+    from .server_common import io_outcomes
+    for nm, prim in (("ClientImpl::write", "Socket::send"), ("ClientImpl::read", "Socket::recv")):
         f = sfn(prog, P + nm)
-        cl = [c for c in q.calls(f) if re.search(r"_closingClients\.append\(this\)", f.r(c))]
-        case0 = [b for b in f.blocks.values() if b.get("label") is not None and f.nodes[b["label"]]["k"] == "CaseStmt" and f.nodes[b["label"]].get("v") == 0]
-        ok = bool(cl) and bool(case0) and all(f.find_path((b["id"], 0), {f.exit_pos()}, avoid=q.pos_of(f, cl), after_src=False) is None for b in case0)
-        if ok:
-            chk.ok("C14.T7", f, "%s: a closed connection queues the client for onClosed" % nm, f.where(cl[0]), "MPT from the `case 0` arm", evals=2)
+        tab = io_outcomes(f, prim)
+        if tab is not None and tab["closed"][0] and tab["error"][0]:
+            chk.ok("C14.T7", f, "%s: a closed or failed connection queues the client for onClosed" % nm, "%s:%s" % (f.file, f.line), "decision table (guard-directed walk)", evals=2)
         else:
-            chk.bad("C14.T7", f, "failure-without-deferred-close", "%s:%s" % (f.file, f.line), "%s must append the client to _closingClients when send/recv reports a closed connection" % nm)
+            chk.bad("C14.T7", f, "failure-without-deferred-close", "%s:%s" % (f.file, f.line), "%s must append the client to _closingClients when send/recv reports a closed connection or an error" % nm)
     loop = [c for c, root, t in callback_calls(run_) if "onClosed" in t and root is not None]
     pops = [c for c in q.calls(run_) if re.search(r"_closingClients\.removeFront\(\)", run_.r(c))]
     inloop = [c for c in loop if any(q.precedes_always(run_, pops, c) and q.reaches(run_, p, c) for p in pops)]
